@@ -122,65 +122,73 @@ Fixpoint certs_equal (cur new : list Z) : result bool :=
   | n :: ns, c :: cs => if Z.eqb c n then certs_equal cs ns else Ok false
   end.
 
-(* SetConfiguration.  closed = isClosed, has_local = (LocalDescription() != nil).
-   Returns the stored configuration afterwards (assignments made before an
-   error return stay) and the error. *)
-Definition set_configuration (closed has_local : bool) (cur new : config) : config * result unit :=
-  if closed then (cur, Err E_state) else
-  (* PeerIdentity *)
-  let step1 : config * result unit :=
-    if negb (String.eqb (identity new) "") then
-      if negb (String.eqb (identity new) (identity cur)) then (cur, Err E_modification)
-      else (with_identity cur (identity new), Ok tt)
-    else (cur, Ok tt) in
-  match step1 with
-  | (c1, Ok _) =>
-  (* Certificates *)
-  let step2 : config * result unit :=
-    match certs new with
-    | [] => (c1, Ok tt)
-    | _ =>
-        if negb (Nat.eqb (List.length (certs new)) (List.length (certs c1)))
-        then (c1, Err E_modification)
-        else match certs_equal (certs c1) (certs new) with
-             | Ok true => (with_certs c1 (certs new), Ok tt)
-             | Ok false => (c1, Err E_modification)
-             | Err e => (c1, Err e)
-             | Panic => (c1, Panic)
-             end
-    end in
-  match step2 with
-  | (c2, Ok _) =>
-  (* BundlePolicy *)
-  let step3 : config * result unit :=
-    if negb (Z.eqb (bundle new) 0) then
-      if negb (Z.eqb (bundle new) (bundle c2)) then (c2, Err E_modification)
-      else (with_bundle c2 (bundle new), Ok tt)
-    else (c2, Ok tt) in
-  match step3 with
-  | (c3, Ok _) =>
-  (* RTCPMuxPolicy *)
-  let step4 : config * result unit :=
-    if negb (Z.eqb (rtcpmux new) 0) then
-      if negb (Z.eqb (rtcpmux new) (rtcpmux c3)) then (c3, Err E_modification)
-      else (with_rtcpmux c3 (rtcpmux new), Ok tt)
-    else (c3, Ok tt) in
-  match step4 with
-  | (c4, Ok _) =>
-  (* ICECandidatePoolSize: checked, never assigned *)
-  if negb (N.eqb (pool new) 0) && (negb (N.eqb (pool c4) (pool new)) && has_local)
-  then (c4, Err E_modification) else
-  (* ICE servers *)
+(* SetConfiguration, one definition per block of the Go function.  Each block
+   returns the stored configuration afterwards and nil or the error. *)
+Definition sc_identity (c new : config) : config * result unit :=
+  if negb (String.eqb (identity new) "") then
+    if negb (String.eqb (identity new) (identity c)) then (c, Err E_modification)
+    else (with_identity c (identity new), Ok tt)
+  else (c, Ok tt).
+
+Definition sc_certs (c new : config) : config * result unit :=
+  match certs new with
+  | [] => (c, Ok tt)
+  | _ =>
+      if negb (Nat.eqb (List.length (certs new)) (List.length (certs c)))
+      then (c, Err E_modification)
+      else match certs_equal (certs c) (certs new) with
+           | Ok true => (with_certs c (certs new), Ok tt)
+           | Ok false => (c, Err E_modification)
+           | Err e => (c, Err e)
+           | Panic => (c, Panic)
+           end
+  end.
+
+Definition sc_bundle (c new : config) : config * result unit :=
+  if negb (Z.eqb (bundle new) 0) then
+    if negb (Z.eqb (bundle new) (bundle c)) then (c, Err E_modification)
+    else (with_bundle c (bundle new), Ok tt)
+  else (c, Ok tt).
+
+Definition sc_rtcpmux (c new : config) : config * result unit :=
+  if negb (Z.eqb (rtcpmux new) 0) then
+    if negb (Z.eqb (rtcpmux new) (rtcpmux c)) then (c, Err E_modification)
+    else (with_rtcpmux c (rtcpmux new), Ok tt)
+  else (c, Ok tt).
+
+(* ICECandidatePoolSize: checked, never assigned (the assignment is commented out) *)
+Definition sc_pool (has_local : bool) (c new : config) : config * result unit :=
+  if negb (N.eqb (pool new) 0) then
+    if negb (N.eqb (pool c) (pool new)) && has_local then (c, Err E_modification)
+    else (c, Ok tt)
+  else (c, Ok tt).
+
+(* ICE servers validated, then the assignments of steps 7-9 *)
+Definition sc_tail (c new : config) : config * result unit :=
   match validate_all (servers new) with
   | Ok _ =>
-      (with_tail c4 (policy new) (if always_dc new then true else always_dc c4) (servers new), Ok tt)
-  | Err e => (c4, Err e)
-  | Panic => (c4, Panic)
-  end
-  | r => r end
-  | r => r end
-  | r => r end
-  | r => r end.
+      (with_tail c (policy new) (if always_dc new then true else always_dc c) (servers new), Ok tt)
+  | Err e => (c, Err e)
+  | Panic => (c, Panic)
+  end.
+
+(* "if err != nil { return err }" *)
+Definition and_then (r : config * result unit) (f : config -> config * result unit)
+  : config * result unit :=
+  match r with
+  | (c, Ok _) => f c
+  | other => other
+  end.
+
+(* closed = isClosed, has_local = (LocalDescription() != nil) *)
+Definition set_configuration (closed has_local : bool) (cur new : config) : config * result unit :=
+  if closed then (cur, Err E_state) else
+  and_then (sc_identity cur new) (fun c1 =>
+  and_then (sc_certs c1 new) (fun c2 =>
+  and_then (sc_bundle c2 new) (fun c3 =>
+  and_then (sc_rtcpmux c3 new) (fun c4 =>
+  and_then (sc_pool has_local c4 new) (fun c5 =>
+  sc_tail c5 new))))).
 
 (* ---- histories on one connection ---- *)
 Inductive cop := SetConf (new : config) | SetLocal | CloseConn.
